@@ -31,6 +31,9 @@ func runC02(p *core.Program, r *core.Report) {
 	c02R5(p, r, pl)
 	c02R6(p, r, pl)
 	c02R10(p, r, pl)
+	// R11 (round 9): work is marked done only by equal sums - the skip decision of a package compares the recorded with the
+	// current sum and nothing else (a "visited" mark set before generation succeeded skips a failed package on a retry)
+	chainRules(p, r, "R11", "C08", []string{"C08.R1"}, "a package is skipped only when its recorded and current sums are equal")
 	// R7: Execute returns the error of a failed generator from inside its loops over iterators (the local packages, the
 	// types of a package): an iterator that goes on after the loop was left panics instead
 	iteratorProtocol(p, r, "R7", 40)
